@@ -29,6 +29,8 @@ mod tests;
 
 pub use self::interpreter_trait::InterpreterTrait;
 pub use self::main::new_default_interpreter;
+#[cfg(feature = "verif")]
+pub use self::main::verif;
 pub use self::stdlib::*;
 
 fn is_cr_lf(ch: char) -> bool {
